@@ -354,6 +354,7 @@ func (p *proxyObject) preventExtensions(throw bool) bool {
 		if target.self.isExtensible() {
 			panic(p.val.runtime.NewTypeError("'preventExtensions' on proxy: trap returned truish but the proxy target is extensible"))
 		}
+		return true
 	}
 
 	return target.self.preventExtensions(throw)
